@@ -266,6 +266,16 @@ def expandAxesFrom {α : Type} (axes : List Nat) (v : α) : Nat → Nat → List
 def expandAxes {α : Type} (axes : List Nat) (v : α) (l : List α) : List α :=
   expandAxesFrom axes v (l.length + axes.length) 0 l
 
+/-- coordinates of the input block read for out coordinates `coords`: 0 on the squeezed axes. -/
+def unsqueezeCoords (axes : List Nat) : Nat → Chunks → List Nat → List Nat
+  | _, [], _ => []
+  | k, _ :: xs, cs =>
+    if axes.contains k then 0 :: unsqueezeCoords axes (k + 1) xs cs
+    else
+      match cs with
+      | c :: cs' => c :: unsqueezeCoords axes (k + 1) xs cs'
+      | [] => []
+
 /-- Python `list.insert(ax, n)`. -/
 def pyInsert {α : Type} (l : List α) (ax : Nat) (v : α) : List α := l.take ax ++ v :: l.drop ax
 
@@ -533,22 +543,24 @@ def selLen (n start stop step : Nat) : Nat := ceilDiv (min stop n - min start n)
 
 /-- `_rechunk(x, copy_chunks, …)` / `merge_chunks(x, chunks)`: output chunks
 `normalize_chunks(copy_chunks, x.shape)`. -/
-def copyChunkss (x : Chunks) (copy : List Nat) : Option Chunks :=
-  if copy.length = x.length then some (List.zipWith (fun c l => regGrid (max c 1) l.sum) copy x) else none
+def copyChunkss : Chunks → List Nat → Option Chunks
+  | [], [] => some []
+  | l :: ls, c :: cs => (copyChunkss ls cs).map (fun r => regGrid (max c 1) l.sum :: r)
+  | _, _ => none
 
 def mergeOk (x : Chunks) (target : List Nat) : Bool :=
   target.length == x.length && (List.zipWith (fun t c => maxOf c != 0 && t % maxOf c == 0) target x).all id
 
-/-- `_assemble_index_chunk`: `empty(indexer.shape)` for the selection `get_item(copy chunks, coords)`
-taken on the input array. -/
-def copyBlock (x : Chunks) (copy : List Nat) (coords : List Nat) : Option (List Nat) :=
-  match copyChunkss x copy with
-  | none => none
-  | some ch =>
-    (getItem ch coords).bind (fun sl =>
-      if sl.length = x.length then
-        some (List.zipWith (fun p l => selLen l.sum p.1 p.2 1) sl x)
-      else none)
+/-- one axis of `_assemble_index_chunk`'s `empty(indexer.shape)`: the selection is the slice
+`get_item(copy chunks, coords)` = [sum of the first b chunks, + chunk b), taken on an axis of length `n`. -/
+def copyAxisBlock (n : Nat) (t : List Nat) (b : Nat) : Option Nat :=
+  if b < t.length then some (selLen n (t.take b).sum (t.take (b + 1)).sum 1) else none
+
+def copyBlock : Chunks → List Nat → List Nat → Option (List Nat)
+  | [], [], [] => some []
+  | l :: ls, c :: cs, b :: bs =>
+    consOpt (copyAxisBlock l.sum (regGrid (max c 1) l.sum) b) (copyBlock ls cs bs)
+  | _, _, _ => none
 
 /-! ## index -/
 
